@@ -19,7 +19,9 @@ FILES = ["implementation/mdd/clean.rs", "implementation/mdd/pooled.rs", "impleme
 
 
 def main():
-    env = dict(os.environ, RUSTFLAGS="-C instrument-coverage", CARGO_TARGET_DIR=TARGET, CARGO_NET_OFFLINE="true")
+    os.makedirs(PROF, exist_ok=True)
+    env = dict(os.environ, RUSTFLAGS="-C instrument-coverage", CARGO_TARGET_DIR=TARGET, CARGO_NET_OFFLINE="true",
+               LLVM_PROFILE_FILE=os.path.join(PROF, "build-%p.profraw"))     # instrumented build scripts must not drop profiles into /repo
     p = subprocess.run(["cargo", "+nightly", "build", "--offline", "--quiet"], cwd=os.path.join(VERIF, "harness"), env=env,
                        stdout=subprocess.PIPE, stderr=subprocess.STDOUT, text=True)
     if p.returncode != 0:
